@@ -1,8 +1,9 @@
 /-
-  The grant invariant: what ties a refresh token to its request id index, and codes to the
-  grants they belong to.  Preserved by every storage call, provided `createCode` /
-  `createRefresh` are only issued under their guards (which the handlers guarantee —
-  `Proofs/Safe*.lean`).
+  The grant invariant: what ties a refresh token to its request id index, codes to the
+  grants they belong to, and stored device authorizations / pushed authorization requests to the
+  request id they will issue codes and tokens under.  Preserved by every storage call, provided
+  `createCode` / `createRefresh` / `createDevice` / `createPAR` are only issued under their guards
+  (which the handlers guarantee — `Proofs/Safe*.lean`).
 -/
 import Fosite.Proofs.Effects
 namespace Fosite.Model
@@ -19,21 +20,100 @@ structure GInv (ss : SState) : Prop where
   /-- request ids identify codes -/
   codeIds : ∀ s1 s2 c1 c2, alookup ss.store.codes s1 = some c1 → alookup ss.store.codes s2 = some c2 →
     c1.req.id = c2.req.id → s1 = s2
+  devBelow : ∀ sig d, alookup ss.store.device sig = some d → sig < ss.next ∧ d.req.id < ss.next
+  parBelow : ∀ u p, alookup ss.store.par u = some p → u < ss.next ∧ p.req.id < ss.next
+  /-- the request id of a live (not yet exchanged) device authorization is carried by no refresh
+      token and no code -/
+  devFresh : ∀ sig d, alookup ss.store.device sig = some d → d.used = false →
+    (∀ s rec, alookup ss.store.refresh s = some rec → rec.req.id ≠ d.req.id) ∧
+    (∀ s c, alookup ss.store.codes s = some c → c.req.id ≠ d.req.id)
+  /-- the request id of a stored pushed authorization request is carried by no refresh token and no code -/
+  parFresh : ∀ u p, alookup ss.store.par u = some p →
+    (∀ s rec, alookup ss.store.refresh s = some rec → rec.req.id ≠ p.req.id) ∧
+    (∀ s c, alookup ss.store.codes s = some c → c.req.id ≠ p.req.id)
+  /-- request ids identify device authorizations -/
+  devIds : ∀ s1 s2 d1 d2, alookup ss.store.device s1 = some d1 → alookup ss.store.device s2 = some d2 →
+    d1.req.id = d2.req.id → s1 = s2
+  /-- request ids identify pushed authorization requests -/
+  parIds : ∀ u1 u2 p1 p2, alookup ss.store.par u1 = some p1 → alookup ss.store.par u2 = some p2 →
+    p1.req.id = p2.req.id → u1 = u2
+  /-- a device authorization and a pushed request never share a request id -/
+  devPar : ∀ sig d u p, alookup ss.store.device sig = some d → alookup ss.store.par u = some p →
+    d.req.id ≠ p.req.id
 
-/-- the conditions under which the two record-creating calls keep the invariant -/
+/-- no live device authorization and no pushed request is stored under request id `n` -/
+def NoPending (ss : SState) (n : Nat) : Prop :=
+  (∀ s d, alookup ss.store.device s = some d → d.used = false → d.req.id ≠ n) ∧
+  (∀ u p, alookup ss.store.par u = some p → p.req.id ≠ n)
+
+/-- request id `n` has been allocated and is carried by no stored record of any kind -/
+def IdUnused (ss : SState) (n : Nat) : Prop :=
+  n < ss.next ∧
+  (∀ sig rec, alookup ss.store.refresh sig = some rec → rec.req.id ≠ n) ∧
+  (∀ s c, alookup ss.store.codes s = some c → c.req.id ≠ n) ∧
+  (∀ s d, alookup ss.store.device s = some d → d.req.id ≠ n) ∧
+  (∀ u p, alookup ss.store.par u = some p → p.req.id ≠ n)
+
+/-- The conditions under which the four record-creating calls keep the invariant.
+    * a code is created under an id that no refresh token, no code, no live device authorization
+      and no stored pushed request carries (a fresh id, or the id of a pushed request that has just
+      been deleted);
+    * a refresh token is created under an id that no *active* refresh token, no *active* code, no
+      live device authorization and no pushed request carries (a fresh id, the id of a code that
+      has just been invalidated, of a refresh token that has just been rotated away, or of a device
+      authorization that has just been invalidated);
+    * device authorizations and pushed requests are stored under an unused id. -/
 def Guard (ss : SState) : Call → Prop
   | .createCode r => r.id < ss.next ∧
       (∀ sig rec, alookup ss.store.refresh sig = some rec → rec.req.id ≠ r.id) ∧
-      (∀ s c, alookup ss.store.codes s = some c → c.req.id ≠ r.id)
+      (∀ s c, alookup ss.store.codes s = some c → c.req.id ≠ r.id) ∧
+      NoPending ss r.id
   | .createRefresh _ r => r.id < ss.next ∧
       (∀ sig rec, alookup ss.store.refresh sig = some rec → rec.active = true → rec.req.id ≠ r.id) ∧
-      (∀ s c, alookup ss.store.codes s = some c → c.active = true → c.req.id ≠ r.id)
+      (∀ s c, alookup ss.store.codes s = some c → c.active = true → c.req.id ≠ r.id) ∧
+      NoPending ss r.id
+  | .createDevice d => IdUnused ss d.req.id
+  | .createPAR p => IdUnused ss p.req.id
   | _ => True
 
 def CodesWeaker (l l' : List (Nat × CodeRec)) : Prop :=
   ∀ sig rec', alookup l' sig = some rec' → ∃ rec, alookup l sig = some rec ∧ rec.req = rec'.req ∧ (rec'.active = true → rec.active = true)
 def RefreshWeaker (l l' : List (Nat × RefreshRec)) : Prop :=
   ∀ sig rec', alookup l' sig = some rec' → ∃ rec, alookup l sig = some rec ∧ rec.req = rec'.req ∧ (rec'.active = true → rec.active = true)
+
+/-- device authorizations only disappear, get marked used, or get their request edited (same id) -/
+def DevWeaker (l l' : List (Nat × DevRec)) : Prop :=
+  ∀ sig d', alookup l' sig = some d' → ∃ d, alookup l sig = some d ∧ d.req.id = d'.req.id ∧ (d'.used = false → d.used = false)
+/-- pushed requests only disappear -/
+def ParWeaker (l l' : List (Nat × ParRec)) : Prop :=
+  ∀ u p', alookup l' u = some p' → ∃ p, alookup l u = some p ∧ p.req.id = p'.req.id
+
+theorem DevWeaker.refl (l) : DevWeaker l l := fun _ d' h => ⟨d', h, rfl, id⟩
+theorem ParWeaker.refl (l) : ParWeaker l l := fun _ p' h => ⟨p', h, rfl⟩
+
+theorem DevWeaker.del (l : List (Nat × DevRec)) (sig : Nat) : DevWeaker l (adel l sig) := by
+  intro s d' h
+  rw [alookup_adel] at h
+  by_cases hs : s = sig
+  · simp [hs] at h
+  · simp only [hs, if_false] at h; exact ⟨d', h, rfl, id⟩
+
+/-- overwriting a record by one with the same request id that is not "less used" -/
+theorem DevWeaker.set (l : List (Nat × DevRec)) (sig : Nat) (d dn : DevRec) (hl : alookup l sig = some d)
+    (hid : d.req.id = dn.req.id) (hu : dn.used = false → d.used = false) : DevWeaker l (aset l sig dn) := by
+  intro s d' h
+  rw [alookup_aset] at h
+  by_cases hs : s = sig
+  · subst hs; simp only [if_true] at h; cases h
+    exact ⟨d, hl, hid, hu⟩
+  · simp only [hs, if_false] at h; exact ⟨d', h, rfl, id⟩
+
+theorem ParWeaker.del (l : List (Nat × ParRec)) (u : Nat) : ParWeaker l (adel l u) := by
+  intro s p' h
+  rw [alookup_adel] at h
+  by_cases hs : s = u
+  · simp [hs] at h
+  · simp only [hs, if_false] at h; exact ⟨p', h, rfl⟩
 
 theorem CodesWeaker.refl (l) : CodesWeaker l l := fun _ rec' h => ⟨rec', h, rfl, id⟩
 theorem RefreshWeaker.refl (l) : RefreshWeaker l l := fun _ rec' h => ⟨rec', h, rfl, id⟩
@@ -66,6 +146,7 @@ theorem RefreshWeaker.del (l : List (Nat × RefreshRec)) (sig : Nat) : RefreshWe
 /-- weakening (deactivating / deleting records, minting) keeps the invariant -/
 theorem GInv.weaken (ss ss' : SState) (h : GInv ss)
     (hc : CodesWeaker ss.store.codes ss'.store.codes) (hr : RefreshWeaker ss.store.refresh ss'.store.refresh)
+    (hd : DevWeaker ss.store.device ss'.store.device) (hp : ParWeaker ss.store.par ss'.store.par)
     (hi : ss'.store.rtIdx = ss.store.rtIdx) (hn : ss.next ≤ ss'.next) : GInv ss' := by
   constructor
   · intro sig rec' hl
@@ -87,6 +168,46 @@ theorem GInv.weaken (ss ss' : SState) (h : GInv ss)
     obtain ⟨c1, h10, hr1, _⟩ := hc s1 c1' h1
     obtain ⟨c2, h20, hr2, _⟩ := hc s2 c2' h2
     exact h.codeIds s1 s2 c1 c2 h10 h20 (by rw [hr1, hr2]; exact heq)
+  · intro sig d' hl
+    obtain ⟨d, hl0, hid, _⟩ := hd sig d' hl
+    have := h.devBelow sig d hl0
+    rw [← hid]; omega
+  · intro u p' hl
+    obtain ⟨p, hl0, hid⟩ := hp u p' hl
+    have := h.parBelow u p hl0
+    rw [← hid]; omega
+  · intro sig d' hl hu
+    obtain ⟨d, hl0, hid, hused⟩ := hd sig d' hl
+    obtain ⟨f1, f2⟩ := h.devFresh sig d hl0 (hused hu)
+    refine ⟨?_, ?_⟩
+    · intro s rec' hrl
+      obtain ⟨rec, hrl0, hrreq, _⟩ := hr s rec' hrl
+      rw [← hid, ← hrreq]; exact f1 s rec hrl0
+    · intro s c' hcl
+      obtain ⟨c, hcl0, hcreq, _⟩ := hc s c' hcl
+      rw [← hid, ← hcreq]; exact f2 s c hcl0
+  · intro u p' hl
+    obtain ⟨p, hl0, hid⟩ := hp u p' hl
+    obtain ⟨f1, f2⟩ := h.parFresh u p hl0
+    refine ⟨?_, ?_⟩
+    · intro s rec' hrl
+      obtain ⟨rec, hrl0, hrreq, _⟩ := hr s rec' hrl
+      rw [← hid, ← hrreq]; exact f1 s rec hrl0
+    · intro s c' hcl
+      obtain ⟨c, hcl0, hcreq, _⟩ := hc s c' hcl
+      rw [← hid, ← hcreq]; exact f2 s c hcl0
+  · intro s1 s2 d1' d2' h1 h2 heq
+    obtain ⟨d1, h10, hi1, _⟩ := hd s1 d1' h1
+    obtain ⟨d2, h20, hi2, _⟩ := hd s2 d2' h2
+    exact h.devIds s1 s2 d1 d2 h10 h20 (by rw [hi1, hi2]; exact heq)
+  · intro u1 u2 p1' p2' h1 h2 heq
+    obtain ⟨p1, h10, hi1⟩ := hp u1 p1' h1
+    obtain ⟨p2, h20, hi2⟩ := hp u2 p2' h2
+    exact h.parIds u1 u2 p1 p2 h10 h20 (by rw [hi1, hi2]; exact heq)
+  · intro sig d' u p' h1 h2
+    obtain ⟨d, h10, hi1, _⟩ := hd sig d' h1
+    obtain ⟨p, h20, hi2⟩ := hp u p' h2
+    rw [← hi1, ← hi2]; exact h.devPar sig d u p h10 h20
 
 theorem exec_codes_weaker_or_create (ss : SState) (c : Call) :
     (∃ r, c = .createCode r) ∨ CodesWeaker ss.store.codes (ss.exec c).1.store.codes := by
@@ -168,100 +289,341 @@ theorem exec_refresh_weaker (ss : SState) (c : Call) (hc : ∀ a r, c ≠ .creat
   | invalidateDevice _ => apply same <;> (simp only [SState.exec]; (repeat' split) <;> rfl)
   | authenticateUser _ _ => apply same <;> (simp only [SState.exec]; split <;> rfl)
 
-theorem exec_GInv_other (ss : SState) (c : Call) (h : GInv ss)
-    (hc1 : ∀ r, c ≠ .createCode r) (hc2 : ∀ a r, c ≠ .createRefresh a r) : GInv (ss.exec c).1 := by
+theorem exec_createCode_frame (ss : SState) (r : Req) :
+    (ss.exec (.createCode r)).1.store.device = ss.store.device ∧
+    (ss.exec (.createCode r)).1.store.par = ss.store.par := by
+  simp [SState.exec]
+
+theorem exec_createRefresh_frame (ss : SState) (a : Nat) (r : Req) :
+    (ss.exec (.createRefresh a r)).1.store.device = ss.store.device ∧
+    (ss.exec (.createRefresh a r)).1.store.par = ss.store.par := by
+  simp [SState.exec]
+
+theorem exec_createDevice_effect (ss : SState) (d : DevRec) :
+    (ss.exec (.createDevice d)).1.store.codes = ss.store.codes ∧
+    (ss.exec (.createDevice d)).1.store.refresh = ss.store.refresh ∧
+    (ss.exec (.createDevice d)).1.store.rtIdx = ss.store.rtIdx ∧
+    (ss.exec (.createDevice d)).1.store.par = ss.store.par ∧
+    (ss.exec (.createDevice d)).1.store.device = aset ss.store.device ss.next { d with userSig := ss.next + 1 } ∧
+    (ss.exec (.createDevice d)).1.next = ss.next + 2 := by
+  simp [SState.exec]
+
+theorem exec_createPAR_effect (ss : SState) (p : ParRec) :
+    (ss.exec (.createPAR p)).1.store.codes = ss.store.codes ∧
+    (ss.exec (.createPAR p)).1.store.refresh = ss.store.refresh ∧
+    (ss.exec (.createPAR p)).1.store.rtIdx = ss.store.rtIdx ∧
+    (ss.exec (.createPAR p)).1.store.device = ss.store.device ∧
+    (ss.exec (.createPAR p)).1.store.par = aset ss.store.par ss.next p ∧
+    (ss.exec (.createPAR p)).1.next = ss.next + 1 := by
+  simp [SState.exec]
+
+theorem exec_device_weaker (ss : SState) (c : Call) (hc : ∀ d, c ≠ .createDevice d) :
+    DevWeaker ss.store.device (ss.exec c).1.store.device := by
+  have same : ∀ ss' : SState, ss'.store.device = ss.store.device → DevWeaker ss.store.device ss'.store.device :=
+    fun ss' h1 => by rw [h1]; exact DevWeaker.refl _
+  cases c with
+  | createDevice d => exact absurd rfl (hc d)
+  | invalidateDevice k =>
+    cases k with
+    | none => exact same _ (by simp [SState.exec])
+    | some sig =>
+      simp only [SState.exec]
+      by_cases hm : ss.devMark = true
+      · simp only [hm, if_true]
+        cases hl : alookup ss.store.device sig with
+        | none => exact DevWeaker.refl _
+        | some d => exact DevWeaker.set _ _ d _ hl rfl (by intro h; cases h)
+      · simp only [hm, Bool.false_eq_true, if_false]
+        exact DevWeaker.del _ _
+  | revokeRefresh rid => apply same; simp only [SState.exec, revokeRefreshS]; (repeat' split) <;> rfl
+  | rotateRefresh rid k => apply same; simp only [SState.exec, revokeRefreshS, revokeAccessS]; (repeat' split) <;> rfl
+  | revokeAccess rid => apply same; simp only [SState.exec, revokeAccessS]
+  | deleteRefresh _ => apply same; simp only [SState.exec]; split <;> rfl
+  | createRefresh _ _ => apply same; simp [SState.exec]
+  | getClient _ => apply same; simp only [SState.exec]; split <;> rfl
+  | getCode _ => apply same; simp only [SState.exec]; (repeat' split) <;> rfl
+  | invalidateCode _ => apply same; simp only [SState.exec]; (repeat' split) <;> rfl
+  | createCode _ => apply same; simp [SState.exec]
+  | createAccess _ => apply same; simp [SState.exec]
+  | getAccess _ => apply same; simp only [SState.exec]; split <;> rfl
+  | deleteAccess _ => apply same; simp only [SState.exec]; split <;> rfl
+  | getRefresh _ => apply same; simp only [SState.exec]; (repeat' split) <;> rfl
+  | createPKCE _ _ => apply same; simp [SState.exec]
+  | getPKCE _ => apply same; simp only [SState.exec]; split <;> rfl
+  | deletePKCE _ => apply same; simp only [SState.exec]; split <;> rfl
+  | createOIDC _ _ => apply same; simp [SState.exec]
+  | getOIDC _ => apply same; simp only [SState.exec]; split <;> rfl
+  | deleteOIDC _ => apply same; simp only [SState.exec]; split <;> rfl
+  | beginTx => apply same; simp [SState.exec]
+  | commitTx => apply same; simp [SState.exec]
+  | rollbackTx => apply same; simp [SState.exec]
+  | newId => apply same; simp [SState.exec]
+  | createPAR _ => apply same; simp [SState.exec]
+  | getPAR _ => apply same; simp only [SState.exec]; split <;> rfl
+  | deletePAR _ => apply same; simp only [SState.exec]; split <;> rfl
+  | getDevice _ => apply same; simp only [SState.exec]; (repeat' split) <;> rfl
+  | authenticateUser _ _ => apply same; simp only [SState.exec]; split <;> rfl
+
+theorem exec_par_weaker (ss : SState) (c : Call) (hc : ∀ p, c ≠ .createPAR p) :
+    ParWeaker ss.store.par (ss.exec c).1.store.par := by
+  have same : ∀ ss' : SState, ss'.store.par = ss.store.par → ParWeaker ss.store.par ss'.store.par :=
+    fun ss' h1 => by rw [h1]; exact ParWeaker.refl _
+  cases c with
+  | createPAR p => exact absurd rfl (hc p)
+  | deletePAR k =>
+    cases k with
+    | none => exact same _ (by simp [SState.exec])
+    | some u => simp only [SState.exec]; exact ParWeaker.del _ _
+  | revokeRefresh rid => apply same; simp only [SState.exec, revokeRefreshS]; (repeat' split) <;> rfl
+  | rotateRefresh rid k => apply same; simp only [SState.exec, revokeRefreshS, revokeAccessS]; (repeat' split) <;> rfl
+  | revokeAccess rid => apply same; simp only [SState.exec, revokeAccessS]
+  | deleteRefresh _ => apply same; simp only [SState.exec]; split <;> rfl
+  | createRefresh _ _ => apply same; simp [SState.exec]
+  | getClient _ => apply same; simp only [SState.exec]; split <;> rfl
+  | getCode _ => apply same; simp only [SState.exec]; (repeat' split) <;> rfl
+  | invalidateCode _ => apply same; simp only [SState.exec]; (repeat' split) <;> rfl
+  | createCode _ => apply same; simp [SState.exec]
+  | createAccess _ => apply same; simp [SState.exec]
+  | getAccess _ => apply same; simp only [SState.exec]; split <;> rfl
+  | deleteAccess _ => apply same; simp only [SState.exec]; split <;> rfl
+  | getRefresh _ => apply same; simp only [SState.exec]; (repeat' split) <;> rfl
+  | createPKCE _ _ => apply same; simp [SState.exec]
+  | getPKCE _ => apply same; simp only [SState.exec]; split <;> rfl
+  | deletePKCE _ => apply same; simp only [SState.exec]; split <;> rfl
+  | createOIDC _ _ => apply same; simp [SState.exec]
+  | getOIDC _ => apply same; simp only [SState.exec]; split <;> rfl
+  | deleteOIDC _ => apply same; simp only [SState.exec]; split <;> rfl
+  | beginTx => apply same; simp [SState.exec]
+  | commitTx => apply same; simp [SState.exec]
+  | rollbackTx => apply same; simp [SState.exec]
+  | newId => apply same; simp [SState.exec]
+  | createDevice _ => apply same; simp [SState.exec]
+  | getPAR _ => apply same; simp only [SState.exec]; split <;> rfl
+  | getDevice _ => apply same; simp only [SState.exec]; (repeat' split) <;> rfl
+  | invalidateDevice _ => apply same; simp only [SState.exec]; (repeat' split) <;> rfl
+  | authenticateUser _ _ => apply same; simp only [SState.exec]; split <;> rfl
+
+/-- calls that need a guard -/
+def Call.guarded : Call → Bool
+  | .createCode _ | .createRefresh _ _ | .createDevice _ | .createPAR _ => true
+  | _ => false
+
+theorem exec_GInv_other (ss : SState) (c : Call) (h : GInv ss) (hc : c.guarded = false) : GInv (ss.exec c).1 := by
   apply GInv.weaken ss _ h
-  · rcases exec_codes_weaker_or_create ss c with ⟨r, hc⟩ | hw
-    · exact absurd hc (hc1 r)
+  · rcases exec_codes_weaker_or_create ss c with ⟨r, hc'⟩ | hw
+    · subst hc'; cases hc
     · exact hw
-  · exact (exec_refresh_weaker ss c hc2).1
-  · exact (exec_refresh_weaker ss c hc2).2
+  · exact (exec_refresh_weaker ss c (by intro a r h'; subst h'; cases hc)).1
+  · exact exec_device_weaker ss c (by intro d h'; subst h'; cases hc)
+  · exact exec_par_weaker ss c (by intro d h'; subst h'; cases hc)
+  · exact (exec_refresh_weaker ss c (by intro a r h'; subst h'; cases hc)).2
   · exact exec_next_mono ss c
+
+theorem exec_GInv_createCode (ss : SState) (r : Req) (h : GInv ss) (g : Guard ss (.createCode r)) :
+    GInv (ss.exec (.createCode r)).1 := by
+  obtain ⟨hc, hr, hi, hn⟩ := exec_createCode_effect ss r
+  obtain ⟨hd, hp⟩ := exec_createCode_frame ss r
+  obtain ⟨gid, grt, gcd, gdev, gpar⟩ := g
+  constructor
+  · intro sig rec hl
+    rw [hc, alookup_aset] at hl; rw [hn]
+    by_cases hs : sig = ss.next
+    · subst hs; simp only [if_true] at hl; cases hl; exact ⟨by omega, by simpa using Nat.lt_succ_of_lt gid⟩
+    · simp only [hs, if_false] at hl; have := h.codesBelow sig rec hl; omega
+  · intro sig rec hl
+    rw [hr] at hl; rw [hn]; have := h.refreshBelow sig rec hl; omega
+  · intro sig rec hl ha
+    rw [hr] at hl; rw [hi]; exact h.idx sig rec hl ha
+  · intro cs crec sig rec hcl hca hrl
+    rw [hc, alookup_aset] at hcl; rw [hr] at hrl
+    by_cases hs : cs = ss.next
+    · subst hs; simp only [if_true] at hcl; cases hcl; exact grt sig rec hrl
+    · simp only [hs, if_false] at hcl; exact h.codeRT cs crec sig rec hcl hca hrl
+  · intro s1 s2 c1 c2 h1 h2 heq
+    rw [hc, alookup_aset] at h1 h2
+    by_cases hs1 : s1 = ss.next <;> by_cases hs2 : s2 = ss.next
+    · rw [hs1, hs2]
+    · simp only [hs1, if_true] at h1; simp only [hs2, if_false] at h2; cases h1
+      exact absurd heq.symm (gcd s2 c2 h2)
+    · simp only [hs1, if_false] at h1; simp only [hs2, if_true] at h2; cases h2
+      exact absurd heq (gcd s1 c1 h1)
+    · simp only [hs1, if_false] at h1; simp only [hs2, if_false] at h2
+      exact h.codeIds s1 s2 c1 c2 h1 h2 heq
+  · intro sig d hl
+    rw [hd] at hl; rw [hn]; have := h.devBelow sig d hl; omega
+  · intro u p hl
+    rw [hp] at hl; rw [hn]; have := h.parBelow u p hl; omega
+  · intro sig d hl hu
+    rw [hd] at hl; rw [hr, hc]
+    obtain ⟨f1, f2⟩ := h.devFresh sig d hl hu
+    refine ⟨f1, ?_⟩
+    intro s c hcl
+    rw [alookup_aset] at hcl
+    by_cases hs : s = ss.next
+    · simp only [hs, if_true] at hcl; cases hcl; exact fun heq => gdev sig d hl hu heq.symm
+    · simp only [hs, if_false] at hcl; exact f2 s c hcl
+  · intro u p hl
+    rw [hp] at hl; rw [hr, hc]
+    obtain ⟨f1, f2⟩ := h.parFresh u p hl
+    refine ⟨f1, ?_⟩
+    intro s c hcl
+    rw [alookup_aset] at hcl
+    by_cases hs : s = ss.next
+    · simp only [hs, if_true] at hcl; cases hcl; exact fun heq => gpar u p hl heq.symm
+    · simp only [hs, if_false] at hcl; exact f2 s c hcl
+  · rw [hd]; exact h.devIds
+  · rw [hp]; exact h.parIds
+  · rw [hd, hp]; exact h.devPar
+
+theorem exec_GInv_createRefresh (ss : SState) (a : Nat) (r : Req) (h : GInv ss) (g : Guard ss (.createRefresh a r)) :
+    GInv (ss.exec (.createRefresh a r)).1 := by
+  obtain ⟨hc, hr, hi, hn⟩ := exec_createRefresh_effect ss a r
+  obtain ⟨hd, hp⟩ := exec_createRefresh_frame ss a r
+  obtain ⟨gid, grt, gcd, gdev, gpar⟩ := g
+  constructor
+  · intro sig rec hl
+    rw [hc] at hl; rw [hn]; have := h.codesBelow sig rec hl; omega
+  · intro sig rec hl
+    rw [hr, alookup_aset] at hl; rw [hn]
+    by_cases hs : sig = ss.next
+    · subst hs; simp only [if_true] at hl; cases hl; exact ⟨by omega, by simpa using Nat.lt_succ_of_lt gid⟩
+    · simp only [hs, if_false] at hl; have := h.refreshBelow sig rec hl; omega
+  · intro sig rec hl ha
+    rw [hr, alookup_aset] at hl; rw [hi, alookup_aset]
+    by_cases hs : sig = ss.next
+    · subst hs; simp only [if_true] at hl; cases hl; simp
+    · simp only [hs, if_false] at hl
+      have hne : rec.req.id ≠ r.id := grt sig rec hl ha
+      simp only [hne, if_false]; exact h.idx sig rec hl ha
+  · intro cs crec sig rec hcl hca hrl
+    rw [hc] at hcl; rw [hr, alookup_aset] at hrl
+    by_cases hs : sig = ss.next
+    · subst hs; simp only [if_true] at hrl; cases hrl
+      exact fun heq => gcd cs crec hcl hca heq.symm
+    · simp only [hs, if_false] at hrl; exact h.codeRT cs crec sig rec hcl hca hrl
+  · intro s1 s2 c1 c2 h1 h2 heq
+    rw [hc] at h1 h2; exact h.codeIds s1 s2 c1 c2 h1 h2 heq
+  · intro sig d hl
+    rw [hd] at hl; rw [hn]; have := h.devBelow sig d hl; omega
+  · intro u p hl
+    rw [hp] at hl; rw [hn]; have := h.parBelow u p hl; omega
+  · intro sig d hl hu
+    rw [hd] at hl; rw [hr, hc]
+    obtain ⟨f1, f2⟩ := h.devFresh sig d hl hu
+    refine ⟨?_, f2⟩
+    intro s rec hrl
+    rw [alookup_aset] at hrl
+    by_cases hs : s = ss.next
+    · simp only [hs, if_true] at hrl; cases hrl; exact fun heq => gdev sig d hl hu heq.symm
+    · simp only [hs, if_false] at hrl; exact f1 s rec hrl
+  · intro u p hl
+    rw [hp] at hl; rw [hr, hc]
+    obtain ⟨f1, f2⟩ := h.parFresh u p hl
+    refine ⟨?_, f2⟩
+    intro s rec hrl
+    rw [alookup_aset] at hrl
+    by_cases hs : s = ss.next
+    · simp only [hs, if_true] at hrl; cases hrl; exact fun heq => gpar u p hl heq.symm
+    · simp only [hs, if_false] at hrl; exact f1 s rec hrl
+  · rw [hd]; exact h.devIds
+  · rw [hp]; exact h.parIds
+  · rw [hd, hp]; exact h.devPar
+
+theorem exec_GInv_createDevice (ss : SState) (d : DevRec) (h : GInv ss) (g : Guard ss (.createDevice d)) :
+    GInv (ss.exec (.createDevice d)).1 := by
+  obtain ⟨hc, hr, hi, hp, hd, hn⟩ := exec_createDevice_effect ss d
+  obtain ⟨gid, grt, gcd, gdev, gpar⟩ := g
+  constructor
+  · intro sig rec hl
+    rw [hc] at hl; rw [hn]; have := h.codesBelow sig rec hl; omega
+  · intro sig rec hl
+    rw [hr] at hl; rw [hn]; have := h.refreshBelow sig rec hl; omega
+  · rw [hr, hi]; exact h.idx
+  · rw [hc, hr]; exact h.codeRT
+  · rw [hc]; exact h.codeIds
+  · intro sig d' hl
+    rw [hd, alookup_aset] at hl; rw [hn]
+    by_cases hs : sig = ss.next
+    · subst hs; simp only [if_true] at hl; cases hl
+      exact ⟨by omega, by show d.req.id < _; omega⟩
+    · simp only [hs, if_false] at hl; have := h.devBelow sig d' hl; omega
+  · intro u p hl
+    rw [hp] at hl; rw [hn]; have := h.parBelow u p hl; omega
+  · intro sig d' hl hu
+    rw [hd, alookup_aset] at hl; rw [hr, hc]
+    by_cases hs : sig = ss.next
+    · simp only [hs, if_true] at hl; cases hl; exact ⟨grt, gcd⟩
+    · simp only [hs, if_false] at hl; exact h.devFresh sig d' hl hu
+  · rw [hp, hr, hc]; exact h.parFresh
+  · intro s1 s2 d1 d2 h1 h2 heq
+    rw [hd, alookup_aset] at h1 h2
+    by_cases hs1 : s1 = ss.next <;> by_cases hs2 : s2 = ss.next
+    · rw [hs1, hs2]
+    · simp only [hs1, if_true] at h1; simp only [hs2, if_false] at h2; cases h1
+      exact absurd heq.symm (gdev s2 d2 h2)
+    · simp only [hs1, if_false] at h1; simp only [hs2, if_true] at h2; cases h2
+      exact absurd heq (gdev s1 d1 h1)
+    · simp only [hs1, if_false] at h1; simp only [hs2, if_false] at h2
+      exact h.devIds s1 s2 d1 d2 h1 h2 heq
+  · rw [hp]; exact h.parIds
+  · intro sig d' u p h1 h2
+    rw [hd, alookup_aset] at h1; rw [hp] at h2
+    by_cases hs : sig = ss.next
+    · simp only [hs, if_true] at h1; cases h1; exact fun heq => gpar u p h2 heq.symm
+    · simp only [hs, if_false] at h1; exact h.devPar sig d' u p h1 h2
+
+theorem exec_GInv_createPAR (ss : SState) (p : ParRec) (h : GInv ss) (g : Guard ss (.createPAR p)) :
+    GInv (ss.exec (.createPAR p)).1 := by
+  obtain ⟨hc, hr, hi, hd, hp, hn⟩ := exec_createPAR_effect ss p
+  obtain ⟨gid, grt, gcd, gdev, gpar⟩ := g
+  constructor
+  · intro sig rec hl
+    rw [hc] at hl; rw [hn]; have := h.codesBelow sig rec hl; omega
+  · intro sig rec hl
+    rw [hr] at hl; rw [hn]; have := h.refreshBelow sig rec hl; omega
+  · rw [hr, hi]; exact h.idx
+  · rw [hc, hr]; exact h.codeRT
+  · rw [hc]; exact h.codeIds
+  · intro sig d hl
+    rw [hd] at hl; rw [hn]; have := h.devBelow sig d hl; omega
+  · intro u p' hl
+    rw [hp, alookup_aset] at hl; rw [hn]
+    by_cases hs : u = ss.next
+    · subst hs; simp only [if_true] at hl; cases hl; exact ⟨by omega, by omega⟩
+    · simp only [hs, if_false] at hl; have := h.parBelow u p' hl; omega
+  · rw [hd, hr, hc]; exact h.devFresh
+  · intro u p' hl
+    rw [hp, alookup_aset] at hl; rw [hr, hc]
+    by_cases hs : u = ss.next
+    · simp only [hs, if_true] at hl; cases hl; exact ⟨grt, gcd⟩
+    · simp only [hs, if_false] at hl; exact h.parFresh u p' hl
+  · rw [hd]; exact h.devIds
+  · intro u1 u2 p1 p2 h1 h2 heq
+    rw [hp, alookup_aset] at h1 h2
+    by_cases hs1 : u1 = ss.next <;> by_cases hs2 : u2 = ss.next
+    · rw [hs1, hs2]
+    · simp only [hs1, if_true] at h1; simp only [hs2, if_false] at h2; cases h1
+      exact absurd heq.symm (gpar u2 p2 h2)
+    · simp only [hs1, if_false] at h1; simp only [hs2, if_true] at h2; cases h2
+      exact absurd heq (gpar u1 p1 h1)
+    · simp only [hs1, if_false] at h1; simp only [hs2, if_false] at h2
+      exact h.parIds u1 u2 p1 p2 h1 h2 heq
+  · intro sig d u p' h1 h2
+    rw [hd] at h1; rw [hp, alookup_aset] at h2
+    by_cases hs : u = ss.next
+    · simp only [hs, if_true] at h2; cases h2; exact gdev sig d h1
+    · simp only [hs, if_false] at h2; exact h.devPar sig d u p' h1 h2
 
 /-- **Every storage call preserves the grant invariant under its guard.** -/
 theorem exec_GInv (ss : SState) (c : Call) (h : GInv ss) (g : Guard ss c) : GInv (ss.exec c).1 := by
-  cases c with
-  | createCode r =>
-    obtain ⟨hc, hr, hi, hn⟩ := exec_createCode_effect ss r
-    obtain ⟨gid, grt, gcd⟩ := g
-    constructor
-    · intro sig rec hl
-      rw [hc, alookup_aset] at hl; rw [hn]
-      by_cases hs : sig = ss.next
-      · subst hs; simp only [if_true] at hl; cases hl; exact ⟨by omega, by simpa using Nat.lt_succ_of_lt gid⟩
-      · simp only [hs, if_false] at hl; have := h.codesBelow sig rec hl; omega
-    · intro sig rec hl
-      rw [hr] at hl; rw [hn]; have := h.refreshBelow sig rec hl; omega
-    · intro sig rec hl ha
-      rw [hr] at hl; rw [hi]; exact h.idx sig rec hl ha
-    · intro cs crec sig rec hcl hca hrl
-      rw [hc, alookup_aset] at hcl; rw [hr] at hrl
-      by_cases hs : cs = ss.next
-      · subst hs; simp only [if_true] at hcl; cases hcl; exact grt sig rec hrl
-      · simp only [hs, if_false] at hcl; exact h.codeRT cs crec sig rec hcl hca hrl
-    · intro s1 s2 c1 c2 h1 h2 heq
-      rw [hc, alookup_aset] at h1 h2
-      by_cases hs1 : s1 = ss.next <;> by_cases hs2 : s2 = ss.next
-      · rw [hs1, hs2]
-      · simp only [hs1, if_true] at h1; simp only [hs2, if_false] at h2; cases h1
-        exact absurd heq.symm (gcd s2 c2 h2)
-      · simp only [hs1, if_false] at h1; simp only [hs2, if_true] at h2; cases h2
-        exact absurd heq (gcd s1 c1 h1)
-      · simp only [hs1, if_false] at h1; simp only [hs2, if_false] at h2
-        exact h.codeIds s1 s2 c1 c2 h1 h2 heq
-  | createRefresh a r =>
-    obtain ⟨hc, hr, hi, hn⟩ := exec_createRefresh_effect ss a r
-    obtain ⟨gid, grt, gcd⟩ := g
-    constructor
-    · intro sig rec hl
-      rw [hc] at hl; rw [hn]; have := h.codesBelow sig rec hl; omega
-    · intro sig rec hl
-      rw [hr, alookup_aset] at hl; rw [hn]
-      by_cases hs : sig = ss.next
-      · subst hs; simp only [if_true] at hl; cases hl; exact ⟨by omega, by simpa using Nat.lt_succ_of_lt gid⟩
-      · simp only [hs, if_false] at hl; have := h.refreshBelow sig rec hl; omega
-    · intro sig rec hl ha
-      rw [hr, alookup_aset] at hl; rw [hi, alookup_aset]
-      by_cases hs : sig = ss.next
-      · subst hs; simp only [if_true] at hl; cases hl; simp
-      · simp only [hs, if_false] at hl
-        have hne : rec.req.id ≠ r.id := grt sig rec hl ha
-        simp only [hne, if_false]; exact h.idx sig rec hl ha
-    · intro cs crec sig rec hcl hca hrl
-      rw [hc] at hcl; rw [hr, alookup_aset] at hrl
-      by_cases hs : sig = ss.next
-      · subst hs; simp only [if_true] at hrl; cases hrl
-        exact fun heq => gcd cs crec hcl hca heq.symm
-      · simp only [hs, if_false] at hrl; exact h.codeRT cs crec sig rec hcl hca hrl
-    · intro s1 s2 c1 c2 h1 h2 heq
-      rw [hc] at h1 h2; exact h.codeIds s1 s2 c1 c2 h1 h2 heq
-  | getClient _ => exact exec_GInv_other ss _ h (by intro r h; cases h) (by intro a r h; cases h)
-  | getCode _ => exact exec_GInv_other ss _ h (by intro r h; cases h) (by intro a r h; cases h)
-  | invalidateCode _ => exact exec_GInv_other ss _ h (by intro r h; cases h) (by intro a r h; cases h)
-  | createAccess _ => exact exec_GInv_other ss _ h (by intro r h; cases h) (by intro a r h; cases h)
-  | getAccess _ => exact exec_GInv_other ss _ h (by intro r h; cases h) (by intro a r h; cases h)
-  | deleteAccess _ => exact exec_GInv_other ss _ h (by intro r h; cases h) (by intro a r h; cases h)
-  | revokeAccess _ => exact exec_GInv_other ss _ h (by intro r h; cases h) (by intro a r h; cases h)
-  | getRefresh _ => exact exec_GInv_other ss _ h (by intro r h; cases h) (by intro a r h; cases h)
-  | deleteRefresh _ => exact exec_GInv_other ss _ h (by intro r h; cases h) (by intro a r h; cases h)
-  | revokeRefresh _ => exact exec_GInv_other ss _ h (by intro r h; cases h) (by intro a r h; cases h)
-  | rotateRefresh _ _ => exact exec_GInv_other ss _ h (by intro r h; cases h) (by intro a r h; cases h)
-  | createPKCE _ _ => exact exec_GInv_other ss _ h (by intro r h; cases h) (by intro a r h; cases h)
-  | getPKCE _ => exact exec_GInv_other ss _ h (by intro r h; cases h) (by intro a r h; cases h)
-  | deletePKCE _ => exact exec_GInv_other ss _ h (by intro r h; cases h) (by intro a r h; cases h)
-  | createOIDC _ _ => exact exec_GInv_other ss _ h (by intro r h; cases h) (by intro a r h; cases h)
-  | getOIDC _ => exact exec_GInv_other ss _ h (by intro r h; cases h) (by intro a r h; cases h)
-  | deleteOIDC _ => exact exec_GInv_other ss _ h (by intro r h; cases h) (by intro a r h; cases h)
-  | beginTx => exact exec_GInv_other ss _ h (by intro r h; cases h) (by intro a r h; cases h)
-  | commitTx => exact exec_GInv_other ss _ h (by intro r h; cases h) (by intro a r h; cases h)
-  | rollbackTx => exact exec_GInv_other ss _ h (by intro r h; cases h) (by intro a r h; cases h)
-  | newId => exact exec_GInv_other ss _ h (by intro r h; cases h) (by intro a r h; cases h)
-  | createPAR _ => exact exec_GInv_other ss _ h (by intro r h; cases h) (by intro a r h; cases h)
-  | getPAR _ => exact exec_GInv_other ss _ h (by intro r h; cases h) (by intro a r h; cases h)
-  | deletePAR _ => exact exec_GInv_other ss _ h (by intro r h; cases h) (by intro a r h; cases h)
-  | createDevice _ => exact exec_GInv_other ss _ h (by intro r h; cases h) (by intro a r h; cases h)
-  | getDevice _ => exact exec_GInv_other ss _ h (by intro r h; cases h) (by intro a r h; cases h)
-  | invalidateDevice _ => exact exec_GInv_other ss _ h (by intro r h; cases h) (by intro a r h; cases h)
-  | authenticateUser _ _ => exact exec_GInv_other ss _ h (by intro r h; cases h) (by intro a r h; cases h)
+  cases hg : c.guarded with
+  | false => exact exec_GInv_other ss c h hg
+  | true =>
+    cases c with
+    | createCode r => exact exec_GInv_createCode ss r h g
+    | createRefresh a r => exact exec_GInv_createRefresh ss a r h g
+    | createDevice d => exact exec_GInv_createDevice ss d h g
+    | createPAR p => exact exec_GInv_createPAR ss p h g
+    | _ => cases hg
 
 end Fosite.Model
